@@ -877,15 +877,47 @@ def _is_module_attr(p: Program, f: FuncInfo, e: ast.Attribute) -> bool:
 
 
 def resistance_table(p: Program) -> str:
-    """name of the module-level dict literal find_resistance reads its answers from"""
+    """name of the module-level table (a dict literal, a read-only view of one, or a dict computed from constants) that
+    find_resistance reads its answers from"""
     fr = p.get_func("moclo.registry._utils.find_resistance")
     mod = fr.module
     dicts = [nm for nm, raw in mod.assigns.items() if isinstance(raw, ast.Dict)]
-    used = []
     trees = [fr.node] + [g.node for g in _callees(p, fr)]
-    for nm in dicts:
-        if any(isinstance(n, ast.Name) and n.id == nm for t in trees for n in ast.walk(t)):
-            used.append(nm)
+
+    def is_used(nm):
+        return any(isinstance(n, ast.Name) and n.id == nm for t in trees for n in ast.walk(t))
+
+    used = [nm for nm in dicts if is_used(nm)]
+    if len(used) != 1:
+        table = resistance_table_value(p, None)
+        used = [nm for nm in table if is_used(nm)]
+        if len(used) > 1:
+            # a key set derived from the table is not the table: keep the names that are mappings label -> antibiotic
+            used = [nm for nm in used if isinstance(table[nm], dict)]
     if len(used) != 1:
         raise AnalysisError("anchor vanished: the antibiotics table read by find_resistance is not recognised (%s)" % (used or dicts))
     return used[0]
+
+
+def resistance_table_value(p: Program, name):
+    """the folded value of the module-level constant `name` of find_resistance's module when it is a non-empty mapping of
+    strings to strings (name=None: every such constant, by name)"""
+    from .fold import Folder
+
+    fr = p.get_func("moclo.registry._utils.find_resistance")
+    mod = fr.module
+    folder = Folder(p)
+    holder = next(iter(mod.classes.values()), None)
+    out = {}
+    for nm, raw in mod.assigns.items():
+        if name is not None and nm != name:
+            continue
+        if not isinstance(raw, ast.AST) or isinstance(raw, ast.Constant):
+            continue
+        try:
+            v = folder.module_const(mod, raw)
+        except Exception:
+            continue
+        if isinstance(v, dict) and v and all(isinstance(k, str) and isinstance(x, str) for k, x in v.items()):
+            out[nm] = dict(v)
+    return out if name is None else out.get(name)
